@@ -1,0 +1,37 @@
+//go:build verif
+
+package weightedroundrobin
+
+// Contracts checked by /verif (contract-based deductive verification).
+// This file is comment-only; it is compiled only with -tags=verif.
+
+// ---- C36: static stride scheduler ---------------------------------------------------
+//
+// nextIndex draws sequence numbers i = inc() until one is accepted, where for
+// n backends b = i mod n, g = i div n and w = weights[b], the draw is accepted
+// iff (w*g + b*32767) mod 65535 >= 65535 - w; it returns b of the accepted
+// draw. All arithmetic is exact in uint64 (no wrap: w <= 65535, i < 2^32).
+// A backend of weight 65535 is accepted in every generation, one of weight 0
+// never.
+
+//@ spec func edfAccept(w uint16, i Z, n Z) bool {
+//@   return (Z(w)*(i/n) + (i%n)*32767) % 65535 >= 65535 - Z(w)
+//@ }
+
+//@ func (*edfScheduler).nextIndex
+//@   prop C36
+//@   nopanic
+//@   opt purecalls inc
+//@   requires s != nil && len(s.weights) > 0
+//@   loop 1 invariant len(s.weights) == old(len(s.weights))
+//@   ensures 0 <= result && result < len(s.weights)
+//@   ensures Z(result) == lastval("inc") % Z(len(s.weights))
+//@   ensures edfAccept(s.weights[result], lastval("inc"), Z(len(s.weights)))
+//@   ensures s.weights[result] != 0
+
+//@ func (*rrScheduler).nextIndex
+//@   prop C36
+//@   nopanic
+//@   opt purecalls inc
+//@   requires s != nil && s.numSCs > 0
+//@   ensures Z(result) == lastval("inc") % Z(s.numSCs)
